@@ -75,7 +75,7 @@ def run(tier, v):
     thorough = tier == "thorough"
     states = trans = 0
     # 1. design level + case export
-    mod = 3 if thorough else 5
+    mod = 3 if thorough else 7
     r = vlib.tlc("ScenarioMC", "Scenario_thorough.cfg" if thorough else "Scenario_exh.cfg",
                  env={"VERIF_SEED": vlib.seed(), "VERIF_MOD": mod}, workers=8, heap="6g", deadlock=False, timeout=2400)
     vlib.tlc_must_pass(r, "Scenario_exh")
